@@ -199,7 +199,7 @@ def check_misc(_):
 
 def run(ctx):
     thorough = ctx.tier == "thorough"
-    eng = mk_engine(contracts=cm.CONTRACTS, inline=cm.INLINE, field_classes=cm.FIELD_CLASSES)
+    eng = cm.engine()
     ctx.verify(eng, cm.VERIFY, min_obligations={"hdl21.module:_add": 15, "hdl21.bundle:_add": 5})
     ctx.assumptions.append("Inv_ns assumed on entry (holds for a fresh Module/Bundle: all containers empty)")
     ctx.assumptions.append("Signal.vis is not mutated after the signal has been added (the port view is computed at add time)")
